@@ -293,6 +293,9 @@ func roundTrip[T any](run *vk.Run, r *rand.Rand, kind, scratch string, value, ot
 	}
 	gotEnt, ok := coll.Get(key)
 	if hasVal {
+		if all := coll.All(); len(all) == 0 || func() bool { v, in := all[state.CompositeKey(wantType, key)]; return !in || !equal(v, value) }() {
+			viol("materialized-entity-missing-from-All", fmt.Sprintf("All() of the collection registered as %q does not hold the entity under %q (it has %d entries)", wantType, state.CompositeKey(wantType, key), len(coll.All())))
+		}
 		if !ok || !equal(gotEnt, value) {
 			viol("materialized-entity", fmt.Sprintf("materialized %+v (present=%v), published %+v", gotEnt, ok, value))
 		}
